@@ -24,6 +24,35 @@ def run_hist(cases, nshards=None):
     return out
 
 
+def predicted_streams(cases, N):
+    """the PREDICTED output stream of every history that comes with an S-expression (`sx`): `Model/LiveCoding.lean: session` on the
+    reference semantics (drv_c07, mode `session`), keyed by (prog_id, events); value `w,w;…` or None"""
+    lines = {}
+    for c in cases:
+        if not c.get("sx"):
+            continue
+        ev = ",".join(f"{t}:{k}" for t, k in c["events"]) or "-"
+        lines[(c["prog_id"], ev)] = "\t".join([c["prog_id"] + "|" + ev, "session", str(N), coregen.inputs_field(c["inputs"]), ev, c["sx"]])
+    keys = list(lines)
+    nsh = min(NCPU, max(1, len(keys) // 50))
+    shards = [keys[k::nsh] for k in range(nsh)]
+
+    def work(sh):
+        if not sh:
+            return {}
+        q = run([os.path.join(LEANBIN, "drv_c07")], input="\n".join(lines[k] for k in sh) + "\n")
+        out = {}
+        for ln in q.stdout.split("\n"):
+            f = ln.split("\t")
+            if len(f) >= 2:
+                out[f[0]] = f[1][3:] if f[1].startswith("ok ") else None
+        return out
+    res = {}
+    for r in parallel(shards, work, nproc=nsh):
+        res.update(r)
+    return {k: res.get(k[0] + "|" + k[1]) for k in keys}
+
+
 def main(ctx, args):
     ctx.assumptions += [
         "programs: generated stateful programs whose signal state lives in self/mem/delay cells reachable from dsp (globals are immutable, closures stateless); a gated family (last cells first touched after K samples); every shipped .mmm source with a dsp that runs on the backend (arrays, variants, closures, macros, library code)",
@@ -32,7 +61,7 @@ def main(ctx, args):
     known = load_known("C06")
     if not extract(ctx):
         ctx.finish()
-    proved = prove(ctx, MODULES, drivers=["drv_prog"])
+    proved = prove(ctx, MODULES, drivers=["drv_prog", "drv_c07"])
     if proved and ctx.tier == "thorough":
         proved = leancheck(ctx, MODULES)
     if not build_harness(ctx, bins=["c06"]):
@@ -49,7 +78,7 @@ def main(ctx, args):
         progs, _ = pc.gen_cases(ctx.seed, nprog, "core", N)
         for pr in progs:
             for be in ("vm", "wasm"):
-                base = dict(backend=be, srcs=[pr["src"]], times=N, inputs=pr["inputs"], prog_id=pr["id"])
+                base = dict(backend=be, srcs=[pr["src"]], times=N, inputs=pr["inputs"], prog_id=pr["id"], sx=pr["sx"])
                 cases.append(dict(base, id=f"{pr['id']}|{be}|base", events=[]))
                 splits = list(range(0, N + 1)) if ctx.tier == "quick" else sorted(set(rng.below(N + 1) for _ in range(16)))
                 for n in splits:
@@ -107,6 +136,7 @@ def main(ctx, args):
                     cases.append(dict(base, id=f"{pid_}|{be}|{n}x1", events=[[n, 0]]))
                 cases.append(dict(base, id=f"{pid_}|{be}|3x2+5", events=[[3, 0], [3, 0], [5, 0]]))
     res = run_hist(cases)
+    pred = predicted_streams(cases, N)
     failures, stats, nontriv, samples = [], collections.Counter(), set(), []
     basel = {}
     for c in cases:
@@ -136,6 +166,19 @@ def main(ctx, args):
             first = next((i for i, (a, b) in enumerate(zip(out.split(";"), bout.split(";"))) if a != b), -1)
             failures.append((c, f"samples differ from the uninterrupted run from sample {first}", bout, out))
         else:
+            # the whole session as PREDICTED by the model (reference semantics + published layout + model of the migration):
+            # judged where the model's uninterrupted stream is the runtime's (that equality is C01/C02's business)
+            ev = ",".join(f"{t}:{k}" for t, k in c["events"])
+            pb, ps = pred.get((c["prog_id"], "-")), pred.get((c["prog_id"], ev))
+            if c.get("sx") and pb is not None and pb == bout:
+                stats["session_model_judged"] += 1
+                if ps != out:
+                    stats["session_model_differs"] += 1
+                    prow, rrow = (ps or "").split(";"), out.split(";")
+                    first = next((i for i, (a, b) in enumerate(zip(rrow, prow)) if a != b), -1)
+                    failures.append((c, f"the runtime's samples differ from the session stream predicted by the model from sample {first} "
+                                        f"(model: {'no stream' if ps is None else prow[first] if 0 <= first < len(prow) else '?'})", bout, out))
+                    continue
             if len(set(out.split(";"))) > 2:
                 nontriv.add(hash((c["srcs"][0], c["backend"], str(c["events"]))))
                 if len(samples) < 3 and stats["evaluations"] % 211 == 5:
@@ -159,6 +202,7 @@ def main(ctx, args):
         "samples": samples or [{"note": "replay mode"}],
         "traces_validated_against_impl": stats["evaluations"],
         "failures": len(failures),
+        "session_model": {"judged": stats["session_model_judged"], "runtime_differs_from_predicted": stats["session_model_differs"]},
         "skipped": {k: v for k, v in stats.items() if k.startswith("base_not_ok") or k.startswith("gated_")},
         "shipped_sources_with_dsp": ncorpus,
         "shipped_sources_with_lambdas(not judged: state may live in closure instances)": nclosure,
